@@ -184,8 +184,22 @@ func init() {
 			return a[0].(int64) / 1_000_000
 		},
 		"(time.Duration).Nanoseconds": func(fr *frame, a []value) value { return a[0] },
-		"(time.Duration).Round":       func(fr *frame, a []value) value { return a[0] },
-		"(time.Duration).Truncate":    func(fr *frame, a []value) value { return a[0] },
+		"(time.Duration).Round": func(fr *frame, a []value) value {
+			d, ok1 := a[0].(int64)
+			m, ok2 := a[1].(int64)
+			if !ok1 || !ok2 {
+				panic(engineError{"Duration.Round on a symbolic duration"})
+			}
+			return int64(time.Duration(d).Round(time.Duration(m)))
+		},
+		"(time.Duration).Truncate": func(fr *frame, a []value) value {
+			d, ok1 := a[0].(int64)
+			m, ok2 := a[1].(int64)
+			if !ok1 || !ok2 {
+				panic(engineError{"Duration.Truncate on a symbolic duration"})
+			}
+			return int64(time.Duration(d).Truncate(time.Duration(m)))
+		},
 		"time.Sleep":                  timeSleep,
 		"time.After":                  timeAfter,
 		"time.AfterFunc":              timeAfterFunc,
